@@ -11,7 +11,7 @@ import (
 // Rotation mod len. Harnesses vary it between requests to show that results do not depend on iteration order.
 var Rotation int
 
-func rotate(keys []string) []string {
+func rotate[K ~string](keys []K) []K {
 	if Rotation > 0 && len(keys) > 1 {
 		r := Rotation % len(keys)
 		keys = append(keys[r:], keys[:r]...)
@@ -20,12 +20,12 @@ func rotate(keys []string) []string {
 }
 
 // Keys returns the keys of m sorted, rotated by an environment choice (kind "rot").
-func Keys[V any](m map[string]V) []string {
-	keys := make([]string, 0, len(m))
+func Keys[K ~string, V any](m map[K]V) []K {
+	keys := make([]K, 0, len(m))
 	for k := range m {
 		keys = append(keys, k)
 	}
-	sort.Strings(keys)
+	sort.Slice(keys, func(i, j int) bool { return keys[i] < keys[j] })
 	if len(keys) > 1 {
 		if r := coop.Choose("rot", len(keys)); r > 0 {
 			keys = append(keys[r:], keys[:r]...)
@@ -35,11 +35,11 @@ func Keys[V any](m map[string]V) []string {
 }
 
 // SortedKeys returns the keys of m sorted (no choice).
-func SortedKeys[V any](m map[string]V) []string {
-	keys := make([]string, 0, len(m))
+func SortedKeys[K ~string, V any](m map[K]V) []K {
+	keys := make([]K, 0, len(m))
 	for k := range m {
 		keys = append(keys, k)
 	}
-	sort.Strings(keys)
+	sort.Slice(keys, func(i, j int) bool { return keys[i] < keys[j] })
 	return rotate(keys)
 }
